@@ -26,6 +26,7 @@ from typing import Any
 
 from happysimulator.core.entity import Entity
 from happysimulator.core.event import Event
+from happysimulator.core.sim_future import SimFuture
 
 logger = logging.getLogger(__name__)
 
@@ -161,8 +162,11 @@ class Barrier(Entity):
         # Not the last - must wait
         released = [False]
 
+        wake = SimFuture()
+
         def on_release():
             released[0] = True
+            wake.resolve()
 
         waiter = _BarrierWaiter(callback=on_release, enqueue_time_ns=enqueue_time)
         self._waiters.append(waiter)
@@ -177,7 +181,7 @@ class Barrier(Entity):
             if self._generation != my_generation:
                 released[0] = True
                 break
-            yield 0.0
+            yield wake  # park until woken: no zero-delay polling
 
         # Record wait time
         if self._clock:
